@@ -161,6 +161,8 @@ def gen_opt(rng, k, par):
     mode = rng.choice(["none", "none", "none", "ignored", "include"])
     mode_by = rng.choice(["flag", "builder"]) if mode != "none" else "-"
     line = f"p{k} #R " + " ".join(f"{w}:" + ",".join(src[w]) for w in "FEPQ") + f" #I {mode} #Y {mode_by}"
+    if any("th=" in kv and ("0." in kv or "P." in kv) for w in "FEPQ" for kv in src[w]) and rng.random() < 0.5:
+        line += f" #A {rng.choice([2, 3])}"     # run confined to 2 or 3 CPUs: 0 must mean what std says is available there
     return line, nset
 
 
@@ -248,26 +250,32 @@ def parse_bench(stdout):
 
 
 class OptContext:
-    def __init__(self):
-        self.par = None
+    """Available parallelism as std reports it to a fresh harness process under the same CPU confinement as the
+    benchmark binary (not read off the binary's own output: that is the thing under test)."""
 
-    def probe(self, hbin):
-        if self.par is not None:
-            return self.par
-        rc, out, err = E.run(hbin, ["--bench", "^hx_select_e2e::opt::plain$", "--threads", "0,1", "--sample-count", "1", "--sample-size", "1"])
-        rows = parse_bench(out).get(ROOT + "plain", {"rows": []})["rows"]
-        ts = [int(r[0]) for r in rows if r[0] != "-"]
-        self.par = max(ts) if ts else 1
-        return self.par
+    def __init__(self):
+        self.par = {}
+
+    def probe(self, hbin, ncpus=None):
+        if ncpus not in self.par:
+            self.par[ncpus] = E.harness_parallelism(hbin, ncpus)
+        return self.par[ncpus]
+
+
+def affinity_of(case):
+    return int(case.split(" #A ")[1].split()[0]) if " #A " in case else None
 
 
 def opt_impl_runner(ctx):
     def runner(st, hbin):
-        par = ctx.probe(hbin)
         lines = []
         for case in st.cases:
+            ncpus = affinity_of(case)
+            par = ctx.probe(hbin, ncpus)
+            if par is None:     # confinement not possible on this machine: run unconfined
+                ncpus, par = None, ctx.probe(hbin, None)
             args, env = opt_cmd(case, par)
-            rc, out, err = E.run(hbin, args, env, timeout=90)
+            rc, out, err = E.run(hbin, args, env, timeout=90, ncpus=ncpus)
             if rc != 0:
                 lines.append(f"crash rc={rc} {err.strip().splitlines()[-1:]}")
                 continue
@@ -347,6 +355,13 @@ LIM_FIXED = [
     f"l9 #R F:{MN} E: P: Q:{MX} #V eq #M lim",
     f"l10 #R F:{MX},se=1 E: P: Q: #V bare #M lim",     # skip-ext-time + max-time
     f"l11 #R F:se=0,{MN} E:{MX} P: Q: #V eq #M lim",
+    # sub-millisecond limits (up to 9 fractional digits) are not zero: the benchmark still runs
+    "l12 #R F:mx=400000 E: P: Q: #V eq #M lim",          # --max-time 0.0004
+    "l13 #R F: E:mx=400000 P: Q: #V eq #M lim",          # DIVAN_MAX_TIME=0.0004
+    "l14 #R F:mx=1 E: P: Q: #V eq #M lim",               # --max-time 0.000000001
+    "l15 #R F:mx=499999 E:mx=0 P: Q: #V eq #M lim",      # 0.000499999 by flag over 0 by env
+    "l16 #R F:mx=0 E:mx=400000 P: Q: #V eq #M lim",      # and a real zero
+    "l17 #R F: E: P:mx=400000 Q: #V eq #M lim",
 ]
 TF = {"1": "true", "0": "false"}
 BF = {"1": "binary", "0": "decimal"}
@@ -361,7 +376,8 @@ def gen_tim(rng, k):
 
 
 def secs(ns):
-    return ("%f" % (int(ns) / 1e9)).rstrip("0").rstrip(".") or "0"
+    ns = int(ns)
+    return (f"{ns // 10**9}.{ns % 10**9:09d}").rstrip("0").rstrip(".")
 
 
 def tim_module(case):
@@ -416,8 +432,8 @@ def tim_impl_runner(st, hbin):
             # ceil: 40 samples of 2 ms requested (80 ms): fewer only under a ceiling; floor: 1 sample of 5 ms requested:
             # more only under a floor
             c, f = samples(LROOT + "ceil"), samples(LROOT + "floor")
-            ents = [LROOT + "ceil=" + ("missing" if c is None else "n" if c == 40 else "C" if 1 <= c < 40 else f"odd-{c}-samples"),
-                    LROOT + "floor=" + ("missing" if f is None else "n" if f == 1 else "F" if f >= 2 else f"odd-{f}-samples")]
+            ents = [LROOT + "ceil=" + ("missing" if c is None else "Z" if c == 0 else "n" if c == 40 else "C" if 1 <= c < 40 else f"odd-{c}-samples"),
+                    LROOT + "floor=" + ("missing" if f is None else "Z" if f == 0 else "n" if f == 1 else "F" if f >= 2 else f"odd-{f}-samples")]
             brow = [l for l in out.splitlines() if "B/s" in l]
             bf = "bin" if brow and "iB/s" in brow[0] else "dec"
             lines.append("T " + " ".join(ents) + f" #Z {bf} #B {LIM_B}")
@@ -460,6 +476,8 @@ def streams(tier, rng):
         op.append(c)
         bump(op_hist, f"runner-fields-set:{nset}")
         bump(op_hist, "mode:" + c.split(" #I ")[1].split()[0])
+        if " #A " in c:
+            bump(op_hist, "confined-to-2-or-3-cpus")
         for w, nm in (("F", "flag"), ("E", "env"), ("P", "builder-before"), ("Q", "builder-after")):
             if spec_of(c, w):
                 bump(op_hist, "source:" + nm)
